@@ -91,7 +91,7 @@ try:
     os.makedirs(out, exist_ok=True)
     for fn in ("patch.diff", "demo.py", "notes.md"):
         p = os.path.join(a.src, fn)
-        if os.path.exists(p):
+        if os.path.exists(p) and os.path.abspath(p) != os.path.abspath(os.path.join(out, fn)):
             shutil.copy(p, os.path.join(out, fn))
     notes = os.path.join(a.src, "notes.md")
     if os.path.exists(notes):
